@@ -24,6 +24,7 @@ Deviations
   which shares) is C06/C07's subject.  Every query a tracker can send carries the tracker's secrets.
 -/
 import Tahoe.Crypto.Derive
+import Tahoe.Base.Sha256
 
 namespace Tahoe.Crypto.Use
 open Tahoe.Crypto.Derive
@@ -172,5 +173,58 @@ def mutableAddLease (nd : MutNode) (s : Server) : Option LeaseMsg :=
     match nd.getCancelSecret s with
     | none => none
     | some c => some ⟨s, nd.storageIndex, r, c⟩
+
+/-! ## From a storage announcement to the seeds (`storage_client.py`)
+
+`_parse_announcement(server_id, furl, ann)` + `_FoolscapStorage` + `NativeStorageServer` /
+`HTTPNativeStorageServer`: which bytes become the permutation seed (share placement, C32), the lease seed
+(every lease-secret chain: uploader, immutable checker, mutable node) and the write-enabler seed.
+
+The announcement is modelled after text decoding (base32 / regex matching are C15/C38's subject):
+`tubid` = the base32-decoded TubID of the `pb://<tubid>@…` storage FURL, `seedAnnounced` = the decoded
+`permutation-seed-base32` if the key is present, `serverIdPubkey` = the decoded key when `server_id` matches
+`^v0-[0-9a-zA-Z]{52}$`, `serverId` = the raw server id. -/
+
+structure Announcement where
+  serverId : List UInt8
+  tubid : List UInt8
+  seedAnnounced : Option (List UInt8)
+  serverIdPubkey : Option (List UInt8)
+  deriving DecidableEq, Repr
+
+/-- the two client-side server classes -/
+inductive Transport
+  | foolscap   -- `NativeStorageServer` (`_FoolscapStorage`)
+  | http       -- `HTTPNativeStorageServer`
+  deriving DecidableEq, Repr
+
+/-- `_parse_announcement`: the permutation seed, in the code's order of preference -/
+def permutationSeed (a : Announcement) : List UInt8 :=
+  match a.seedAnnounced with
+  | some s => s
+  | none =>
+    match a.serverIdPubkey with
+    | some k => k
+    | none => Tahoe.Base.Sha256.sha256 a.serverId
+
+/-- what an `IServer` built from an announcement answers -/
+structure NativeServer where
+  serverid : List UInt8
+  permutationSeed : List UInt8   -- `get_permutation_seed()`
+  tubid : List UInt8             -- `get_tubid()`
+  leaseSeed : List UInt8         -- `get_lease_seed()`
+  weSeed : List UInt8            -- `get_foolscap_write_enabler_seed()`
+  deriving DecidableEq, Repr
+
+/-- `NativeStorageServer(server_id, ann, …)` / `HTTPNativeStorageServer(server_id, ann, …)`:
+    `_FoolscapStorage.lease_seed = self.tubid`, `get_foolscap_write_enabler_seed = self._storage.tubid`; the
+    HTTP class returns `self._tubid` for both.  The permutation seed plays no part in either. -/
+def nativeServer (_t : Transport) (a : Announcement) : NativeServer :=
+  { serverid := a.serverId, permutationSeed := permutationSeed a, tubid := a.tubid,
+    leaseSeed := a.tubid, weSeed := a.tubid }
+
+/-- the record the secret-bearing call sites read -/
+def NativeServer.toServer (n : NativeServer) (maxImmutableShareSize : Nat) : Server :=
+  ⟨n.serverid, n.leaseSeed, n.weSeed, maxImmutableShareSize⟩
 
 end Tahoe.Crypto.Use
